@@ -63,18 +63,18 @@ def run(ctx):
         "the same model cases are embedded under every face of the root's parity (the tables depend on face % 2 only)",
     ]
     runs = []
-    L_top = 3 if q else 4
+    L_top = 4
     # top embedding: one TLC run per parity, replayed under faces of that parity
     for parity in ([rnd.randrange(2)] if q else [0, 1]):
         faces = [f for f in range(6) if f % 2 == parity]
         if q:
             faces = rnd.sample(faces, 2)
-        root, cases = _gen(ctx, L_top, parity, [], 23 if q else 5, rnd.randrange(5), 3 if q else 1, rnd.randrange(64))
+        root, cases = _gen(ctx, L_top, parity, [], 31 if q else 5, rnd.randrange(5), 5 if q else 1, rnd.randrange(64))
         for f in faces:
             runs += _cases(root, cases, f)
     # deep embeddings: a leaf-level anchor (model probes are real leaf cells) and mid-level anchors
     anchors = []
-    Ld = 3 if q else 4
+    Ld = 4
     anchors.append([rnd.randrange(4) for _ in range(30 - (Ld + 1))])
     for _ in range(1 if q else 4):
         anchors.append([rnd.randrange(4) for _ in range(rnd.randrange(1, 30 - (Ld + 1)))])
@@ -85,7 +85,7 @@ def run(ctx):
         anchors.append([2] * 10)
     for path in anchors:
         face = rnd.randrange(6)
-        root, cases = _gen(ctx, Ld, face, path, 41 if q else 9, rnd.randrange(9), 5 if q else 2, rnd.randrange(64))
+        root, cases = _gen(ctx, Ld, face, path, 61 if q else 9, rnd.randrange(9), 7 if q else 2, rnd.randrange(64))
         runs += _cases(root, cases, face)
     rnd.shuffle(runs)
     ctx.log("replay cases: %d" % len(runs))
